@@ -497,6 +497,29 @@ func (x *Exec) sentinelFacts(st *State) {
 			st.assume(Not(Eq(t, NilIface)))
 		}
 	}
+	// package-level errors built once by errors.New / fmt.Errorf in the
+	// package initialiser and never reassigned: non-nil, and wrapping the
+	// error given to %w
+	var ngs []*ssa.Global
+	for g := range x.L.newErrGlobals {
+		ngs = append(ngs, g)
+	}
+	sort.Slice(ngs, func(i, j int) bool { return ngs[i].String() < ngs[j].String() })
+	for _, g := range ngs {
+		key := x.globalKey(g)
+		if !x.L.immutableGlobal[key] {
+			continue
+		}
+		if _, loaded := x.L.spkgs[g.Pkg.Pkg.Path()]; !loaded {
+			continue
+		}
+		t := x.heapGet(st, key, "Iface")
+		st.assume(Not(Eq(t, NilIface)))
+		if w := x.L.newErrGlobals[g]; w != nil && x.L.immutableGlobal[x.globalKey(w)] {
+			st.assume(x.errIs(t, x.heapGet(st, x.globalKey(w), "Iface")))
+		}
+		x.funcsUsed["struct:package-level error "+g.Name()+" read off the package initialiser (errors.New / fmt.Errorf result, never reassigned): non-nil, wraps its %w operand"] = true
+	}
 	if len(errs) > 1 {
 		var ss []string
 		for _, e := range errs {
